@@ -48,4 +48,23 @@ def versionClassOfE (cls : String) : Except TErr String :=
   | some vc => .ok vc
   | none => .error (.other "NoVersionClass")
 
+/-- `RANGE_CLASS_BY_SCHEMES[scheme]`: the name of the registered range class, `KeyError` for an unknown scheme -/
+def registryIndex (scheme : List Char) : Except TErr String :=
+  match registryL.lookup scheme with
+  | some cls => .ok cls
+  | none => .error .KeyError
+
+/-- `VersionConstraint(comparator=c, version=v)` where `c` comes out of a `{native: vers}` dict and may be `None`
+(not a key of `COMPARATORS`: ValueError) and `v` is a version object, held as its text -/
+def mkTConOpt (c : Option (List Char)) (v : List Char) : Except TErr TCon :=
+  match c with
+  | none => .error .ValueError
+  | some t => mkTCon t (some v)
+
+/-- `any(c in s for c in chars)` -/
+def anyCharIn (chars s : List Char) : Bool := chars.any (fun c => s.contains c)
+
+/-- `s.replace(c, "")` for a one-character `c` -/
+def removeChar (c : Char) (s : List Char) : List Char := s.filter (fun d => d != c)
+
 end Univers.Text.PyText
